@@ -108,7 +108,7 @@ theorem down_last_lazy {P : Par} (hP : P.Ok) {frame : List Nat} {w : W} {sq : In
   have hcnt : CntOk c 1 := by rw [← hc]; exact h.cnt
   have hidle : Client.isSending c = false := by rw [← hc]; exact h.idleC
   -- step 1: the client receives the last fragment and writes the packet to its tun device
-  generalize hrq : (Client.Rq.mk (pkt.length : Int) c.chunkid P.ty 0 (name.headD 0) pkt) = rq
+  generalize hrq : (Client.Rq.mk (pkt.length : Int) c.chunkid (answerType P.ty) 0 (name.headD 0) pkt) = rq
   have hci : cliInput (.ans c.chunkid P.ty name pkt) = .rq rq := by subst hrq; rfl
   have hrok : RecvOkL P c rq pkt := by
     subst hrq
@@ -183,7 +183,7 @@ theorem down_last_lazy_now {P : Par} (hP : P.Ok) {frame : List Nat} {w : W} {sq 
   have hcnt : CntOk c 1 := by rw [← hc]; exact h.cnt
   have hidle : Client.isSending c = false := by rw [← hc]; exact h.idleC
   -- step 1: the client receives the last fragment, writes the packet to its tun device and pings at once
-  generalize hrq : (Client.Rq.mk (pkt.length : Int) c.chunkid P.ty 0 (name.headD 0) pkt) = rq
+  generalize hrq : (Client.Rq.mk (pkt.length : Int) c.chunkid (answerType P.ty) 0 (name.headD 0) pkt) = rq
   have hci : cliInput (.ans c.chunkid P.ty name pkt) = .rq rq := by subst hrq; rfl
   have hrok : RecvOkL P c rq pkt := by
     subst hrq
